@@ -25,7 +25,7 @@ func (p prov) String() string {
 	case nil:
 		s = "?"
 	case *ssa.Parameter:
-		s = "param:" + r.Name()
+		s = "param:" + pname(r)
 	case *ssa.Alloc:
 		s = "local:" + r.Comment
 	case *ssa.Const:
